@@ -1,0 +1,39 @@
+//! Verification hooks, compiled only with the cargo feature `verif-hooks`.
+//!
+//! Nothing here changes the behaviour of the crate: it only gives an external
+//! harness access to the crate-private max value tracker.
+
+use crate::maxvaluetrack::MaxValueTracker;
+
+/// public wrapper around the crate-private `MaxValueTracker<f64>`
+pub struct MaxTrackerF64 {
+    inner: MaxValueTracker<f64>,
+}
+
+impl MaxTrackerF64 {
+    pub fn new(m: usize) -> Self {
+        MaxTrackerF64 {
+            inner: MaxValueTracker::new(m),
+        }
+    }
+
+    pub fn update(&mut self, k: usize, value: f64) {
+        self.inner.update(k, value)
+    }
+
+    pub fn get_max_value(&self) -> f64 {
+        self.inner.get_max_value()
+    }
+
+    pub fn is_update_possible(&self, value: f64) -> bool {
+        self.inner.is_update_possible(value)
+    }
+
+    pub fn get_value(&self, slot: usize) -> f64 {
+        self.inner.get_value(slot)
+    }
+
+    pub fn reset(&mut self) {
+        self.inner.reset()
+    }
+}
